@@ -1,7 +1,11 @@
 (* C13 — packed encoding is a lossless, spec-conformant, truncation-safe codec.
    Statements only; each is closed by [exact] of a lemma proved elsewhere. *)
-From CV Require Import Packed.Packed Packed.PackSpec Packed.PackedProofs Packed.ReaderProofs
-  Packed.ReadCallProofs.
+From CV Require Import Packed.Packed.
+From CV Require Import Packed.PackSpec.
+From CV Require Import Packed.PackedProofs.
+From CV Require Import Packed.ReaderProofs.
+From CV Require Import Packed.ReadCallProofs.
+From CV Require Import Packed.ReadCallProofs2.
 Open Scope Z_scope.
 
 (* every word-aligned byte string: the packed form decodes back to it, both with the
@@ -54,3 +58,72 @@ Print Assumptions C13_growth.
 (* non-vacuity: the bound is reached *)
 Example C13_growth_tight : unpack [0; 255] = Some (repeat 0 2048).
 Proof. vm_compute. reflexivity. Qed.
+
+(* ---- round 2: Reader.Read on streams the one-shot decoder rejects ---- *)
+
+(* the exact behaviour of the byte interface on EVERY input (accepted or not), every sequence
+   of request sizes (each >= 1), every fast-path and short-read oracle: the Read calls return
+   [fst (unpack_partial inp)] -- the output of the complete items plus the whole words
+   determined by the cut last item, a function of the input alone -- and then EOF if the input
+   is a complete sequence of items, UnexpectedEOF otherwise *)
+Theorem C13_read_partial : forall orc sizes inp, bytes_ok inp ->
+  forall fuel, (2304 * length inp + 1 <= fuel)%nat ->
+  read_calls true fuel orc 0 b_init inp sizes 0
+  = Some (fst (unpack_partial inp), verdict (snd (unpack_partial inp))).
+Proof. exact read_calls_partial. Qed.
+Print Assumptions C13_read_partial.
+
+(* unpack_partial against the one-shot decoder: equal on accepted inputs; extends the output
+   of every accepted prefix; is a prefix of the output of an accepted extension *)
+Theorem C13_partial_is_unpack : forall src,
+  match unpack src with
+  | Some out => unpack_partial src = (out, true)
+  | None => snd (unpack_partial src) = false
+  end.
+Proof. exact unpack_partial_unpack. Qed.
+Print Assumptions C13_partial_is_unpack.
+
+Theorem C13_partial_app : forall good rest out, unpack good = Some out ->
+  unpack_partial (good ++ rest) = pmap out (unpack_partial rest).
+Proof. exact unpack_partial_app. Qed.
+Print Assumptions C13_partial_app.
+
+Theorem C13_partial_sound : forall src, bytes_ok src ->
+  exists ext more, bytes_ok ext /\ unpack (src ++ ext) = Some (fst (unpack_partial src) ++ more).
+Proof. exact unpack_partial_sound. Qed.
+Print Assumptions C13_partial_sound.
+
+(* prefix property at the Read interface, all of the above combined: what is handed out before
+   the terminal error contains the output of every accepted prefix of the input and is
+   contained in the one-shot output of an accepted extension of the input (no invented bytes
+   on truncated / malformed input either) *)
+Theorem C13_read_prefix : forall orc sizes inp, bytes_ok inp ->
+  forall fuel, (2304 * length inp + 1 <= fuel)%nat ->
+  exists o e,
+    read_calls true fuel orc 0 b_init inp sizes 0 = Some (o, e) /\
+    o = fst (unpack_partial inp) /\
+    e = match unpack inp with Some _ => EOF | None => UnexpectedEOF end /\
+    (forall good rest out, inp = good ++ rest -> unpack good = Some out ->
+       exists extra, o = out ++ extra) /\
+    (exists ext more, bytes_ok ext /\ unpack (inp ++ ext) = Some (o ++ more)).
+Proof. exact read_calls_prefix. Qed.
+Print Assumptions C13_read_prefix.
+
+(* invariants of one Read call / of all Read calls, repaired or as-found code, with or without
+   an error, whether or not the stream unpacks: valid state, and the word buffer, the rest of
+   the input and everything returned are bytes *)
+Theorem C13_read_call_bytes_ok : forall strict orc k st inp n k' st' inp' got oe,
+  bvalid st -> bytes_ok (b_word st) -> bytes_ok inp ->
+  read_call strict orc k st inp n = (k', st', inp', got, oe) ->
+  bvalid st' /\ bytes_ok (b_word st') /\ bytes_ok inp' /\ bytes_ok got.
+Proof. exact read_call_bytes_ok. Qed.
+Print Assumptions C13_read_call_bytes_ok.
+
+Theorem C13_read_calls_bytes_ok : forall strict fuel orc k st inp sizes j out e,
+  bvalid st -> bytes_ok (b_word st) -> bytes_ok inp ->
+  read_calls strict fuel orc k st inp sizes j = Some (out, e) -> bytes_ok out.
+Proof. exact read_calls_bytes_ok. Qed.
+Print Assumptions C13_read_calls_bytes_ok.
+(* non-vacuity: ReadCallProofs2.read_calls_prefix_example (ex_inp cut inside its literal run:
+   5 words of complete items + the tag word and one literal word of the cut item are handed
+   out, then UnexpectedEOF), read_call_bytes_ok_example *)
